@@ -337,3 +337,236 @@ def _misplaced_control():
         return len(misplaced_arguments(mm, {"ctl"})) == 1
     finally:
         shutil.rmtree(d, ignore_errors=True)
+
+
+# ---------------------------------------------------------------- shared state
+_MUTATORS = {"append", "extend", "insert", "remove", "pop", "clear", "update",
+             "add", "discard", "setdefault", "popitem", "sort", "reverse",
+             "appendleft", "extendleft"}
+
+
+def _is_mutable_display(e):
+    if isinstance(e, (ast.List, ast.Dict, ast.Set, ast.ListComp, ast.DictComp,
+                      ast.SetComp)):
+        return True
+    return isinstance(e, ast.Call) and isinstance(e.func, ast.Name) and \
+        e.func.id in ("list", "dict", "set", "defaultdict", "OrderedDict",
+                      "deque", "bytearray")
+
+
+def _nested_mutables(value):
+    """keys / positions of a module-level container display that hold a
+    mutable object themselves: {"header": [], "body": None} -> {"header"}"""
+    out = set()
+    if isinstance(value, ast.Dict):
+        for k, v in zip(value.keys, value.values):
+            if _is_mutable_display(v):
+                out.add(k.value if isinstance(k, ast.Constant) else "*")
+    elif isinstance(value, (ast.List, ast.Tuple, ast.Set)):
+        for i, v in enumerate(value.elts):
+            if _is_mutable_display(v):
+                out.add(i)
+    return out
+
+
+def shared_state_leaks(model, modules):
+    """Objects that survive between calls and are modified by a call:
+      (a) a mutable default argument that the function itself mutates;
+      (b) a nested mutable object of a module-level container reached through
+          the container, an alias or a SHALLOW copy of it (dict(X), X.copy(),
+          list(X), copy.copy(X), {**X}) and then mutated.
+    What one call leaves there is seen by the next one.
+    Yields (function info, statement, description)."""
+    out = []
+    for q, fi in sorted(model.funcs.items()):
+        short = fi.module[len(model.pkg) + 1:] if fi.module != model.pkg else ""
+        if short not in modules and fi.module not in modules:
+            continue
+        mi = model.modules[fi.module]
+        fn = fi.node
+        # ---- (a) mutable defaults
+        a = fn.args
+        pos = a.posonlyargs + a.args
+        dflt = dict(zip([p.arg for p in reversed(pos)], reversed(a.defaults)))
+        for p, d in zip(a.kwonlyargs, a.kw_defaults):
+            if d is not None:
+                dflt[p.arg] = d
+        shared = {}            # local name -> (description, nested keys or None)
+        for p, d in dflt.items():
+            if _is_mutable_display(d):
+                shared[p] = ("the default value of parameter `%s`" % p, None)
+        # ---- (b) module-level containers with nested mutables
+        containers = {}
+        for name, vals in mi.assigns.items():
+            if len(vals) != 1:
+                continue
+            nm = _nested_mutables(vals[0])
+            if nm:
+                containers[name] = nm
+        stored = {n.id for n in ast.walk(fn) if isinstance(n, ast.Name) and
+                  isinstance(n.ctx, ast.Store)} | {p.arg for p in pos}
+        stmts = [s for s in walk_no_nested(fn)
+                 if isinstance(s, (ast.Expr, ast.Assign, ast.AugAssign,
+                                   ast.Delete, ast.Return, ast.AnnAssign))]
+
+        def container_of(e):
+            """-> (container name, shallow?) when e evaluates to the container
+            or a shallow copy of it"""
+            if isinstance(e, ast.Name) and e.id in containers and \
+                    e.id not in stored:
+                return e.id
+            if isinstance(e, ast.Call):
+                f = e.func
+                nm = f.id if isinstance(f, ast.Name) else (
+                    f.attr if isinstance(f, ast.Attribute) else None)
+                if nm in ("dict", "list", "tuple", "copy", "OrderedDict") and \
+                        e.args and isinstance(e.args[0], ast.Name) and \
+                        e.args[0].id in containers and \
+                        e.args[0].id not in stored and not (
+                            isinstance(f, ast.Attribute) and
+                            attr_chain(f) == "copy.deepcopy"):
+                    return e.args[0].id
+                if isinstance(f, ast.Attribute) and f.attr == "copy" and \
+                        isinstance(f.value, ast.Name) and \
+                        f.value.id in containers and f.value.id not in stored:
+                    return f.value.id
+            if isinstance(e, ast.Dict) and any(k is None for k in e.keys):
+                for k, v in zip(e.keys, e.values):
+                    if k is None and isinstance(v, ast.Name) and \
+                            v.id in containers and v.id not in stored:
+                        return v.id
+            return None
+        views = {}        # local -> container name (whole container view)
+        for s in stmts:
+            if isinstance(s, ast.Assign) and len(s.targets) == 1 and \
+                    isinstance(s.targets[0], ast.Name):
+                c = container_of(s.value)
+                if c:
+                    views[s.targets[0].id] = c
+
+        def nested_of(e):
+            """-> description when e evaluates to a nested mutable of a
+            container (through the container itself or a view)"""
+            if not isinstance(e, ast.Subscript):
+                return None
+            base = e.value
+            c = None
+            if isinstance(base, ast.Name):
+                if base.id in views:
+                    c = views[base.id]
+                elif base.id in containers and base.id not in stored:
+                    c = base.id
+            if c is None:
+                return None
+            k = e.slice.value if isinstance(e.slice, ast.Constant) else None
+            if k is not None and k not in containers[c] and \
+                    "*" not in containers[c]:
+                return None
+            return "the object stored in module-level %s[%r]" % (
+                c, k if k is not None else "...")
+        for s in stmts:
+            if isinstance(s, ast.Assign) and len(s.targets) == 1 and \
+                    isinstance(s.targets[0], ast.Name):
+                d = nested_of(s.value)
+                if d:
+                    shared[s.targets[0].id] = (d, None)
+        for s in stmts:
+            hit = None
+            for x in ast.walk(s):
+                if isinstance(x, ast.Call) and isinstance(x.func, ast.Attribute) \
+                        and x.func.attr in _MUTATORS:
+                    r = x.func.value
+                    if isinstance(r, ast.Name) and r.id in shared:
+                        hit = shared[r.id][0]
+                    else:
+                        hit = hit or nested_of(r)
+            if isinstance(s, (ast.Assign, ast.AugAssign, ast.Delete)):
+                tg = s.targets if isinstance(s, (ast.Assign, ast.Delete)) \
+                    else [s.target]
+                for t in tg:
+                    if isinstance(t, ast.Subscript):
+                        if isinstance(t.value, ast.Name) and \
+                                t.value.id in shared:
+                            hit = shared[t.value.id][0]
+                        else:
+                            hit = hit or nested_of(t.value)
+                    if isinstance(s, ast.AugAssign):
+                        if isinstance(t, ast.Name) and t.id in shared:
+                            hit = shared[t.id][0]
+                        else:
+                            hit = hit or nested_of(t)
+            if hit:
+                out.append((fi, s, hit))
+    return out
+
+
+def shared_state_rule(run, rule, modules, what):
+    run.rule(rule, "no call modifies an object that the next call will start "
+             "from (%s): neither a mutable default argument nor a nested "
+             "object of a module-level template reached through a shallow "
+             "copy" % what)
+    hits = shared_state_leaks(run.model, modules)
+    for fi, s, desc in hits:
+        run.violated(rule, "%s::%s" % (fi.qual, norm_text(s)[:70]),
+                     "%s is modified in place: it is shared by every call, so "
+                     "what one call adds is still there for the next one" % desc,
+                     fi.loc(s))
+    run.require(_shared_control(), "%s positive control: the shared template "
+                "of the embedded example is not flagged" % rule)
+    run.holds(rule, "shared-state", "%d in-place modifications of "
+              "call-surviving objects in %s (positive control flagged)" %
+              (len(hits), sorted(modules)), "")
+
+
+_CTL3 = '''
+EMPTY = {"header": [], "body": None}
+
+
+def decode(parts):
+    out = dict(EMPTY)
+    for p in parts:
+        out["header"].append(p)
+    return out
+
+
+def fresh(parts):
+    out = {"header": [], "body": None}
+    for p in parts:
+        out["header"].append(p)
+    return out
+
+
+def collect(x, acc=[]):
+    acc.append(x)
+    return acc
+'''
+
+
+def _shared_control():
+    import os
+    import shutil
+    import tempfile
+    from .srcmodel import Model
+    d = tempfile.mkdtemp(prefix="verif-ctl-")
+    try:
+        pkg = os.path.join(d, "src", "saml2_tophat")
+        os.makedirs(pkg)
+        open(os.path.join(pkg, "__init__.py"), "w").close()
+        with open(os.path.join(pkg, "ctl.py"), "w") as fh:
+            fh.write(_CTL3)
+        old = {k: os.environ.get(k) for k in ("VERIF_NO_ALPHA",
+                                              "VERIF_NO_INLINE",
+                                              "VERIF_NO_FUNCRENAME")}
+        os.environ.update({k: "1" for k in old})
+        try:
+            mm = Model(root=d)
+        finally:
+            for k, v in old.items():
+                if v is None:
+                    os.environ.pop(k, None)
+                else:
+                    os.environ[k] = v
+        got = sorted(fi.name for fi, s, dsc in shared_state_leaks(mm, {"ctl"}))
+        return got == ["collect", "decode"]
+    finally:
+        shutil.rmtree(d, ignore_errors=True)
